@@ -14,8 +14,9 @@
                               (junk, every 1-bit corruption, short and empty strings included)
      wf_ctrl c            :=  NoDup (map p_id c)   (controller.pairings is a dict keyed by id) *)
 From Coq Require Import List NArith ZArith Arith Bool Lia Sorted.
-From AHK Require Import Lib.ByteStr Model.Bcast Proofs.Bcast Proofs.BcastHist Proofs.BcastTop Proofs.BcastOps Proofs.BcastExt.
+From AHK Require Import Lib.ByteStr Model.Bcast Proofs.Bcast Proofs.BcastHist Proofs.BcastTop Proofs.BcastOps Proofs.BcastExt Model.BcastDb Proofs.BcastDb.
 Import ListNotations.
+From AHK Require Model.ChaChaPoly Proofs.ChaChaPoly.
 Open Scope N_scope.
 
 (* One notification handed to a pairing.  The pairing changes or a listener is called
@@ -345,6 +346,146 @@ Example c18_plain_adv_rollback_observation :
   (o3, cl3) = (OAccepted, [([1;2;3;4;5;6], 1, 11, VInt 42)]).
 Proof. exact plain_adv_rollback. Qed.
 
+(* ---- round 8: the database is replaced between notifications; a pairing is loaded again ----
+   (Model/BcastDb.v)  XDb i cs sg keep = the accessory database of pairing i replaced
+   (restore_accessories_state / re-read after a config-number change), XReload i = shutdown() +
+   load_pairing for the same id on the same controller, cfg_begin / cfg_end = the re-read as a
+   suspendable operation.  The state x_disc records for which ids the controller holds a
+   discovery (whose description object is the pairing's). *)
+
+(* authenticity and freshness do not depend on the database ... *)
+Theorem bcast_db_irrelevant_for_freshness : forall p cs sg keep a body n pt,
+  fresh_w 98 (with_db p cs sg keep) a body n pt <-> fresh_w 98 p a body n pt.
+Proof. exact (fresh_with_db 98). Qed.
+
+(* ... and after a replacement a fresh notification advances the number and is delivered according
+   to the NEW database only (delivery_for mentions neither the old database nor anything delivered
+   before): new format for an iid whose format changed, nothing + poll for an iid that is gone *)
+Theorem bcast_db_replaced_delivery : forall p cs sg keep a body n pt,
+  fresh_w 98 p a body n pt ->
+  notify (with_db p cs sg keep) a body =
+    (with_sn (with_db p cs sg keep) n, fst (delivery_for (p_id p) cs pt), snd (delivery_for (p_id p) cs pt)).
+Proof. exact (db_replaced_delivery 98). Qed.
+
+Theorem bcast_db_replaced_poll : forall p cs sg keep a body n pt,
+  fresh_w 98 p a body n pt ->
+  (falls_back (snd (fst (notify (with_db p cs sg keep) a body))) = true <-> find_char (iid_of pt) cs = None).
+Proof. exact (db_replaced_poll 98). Qed.
+
+(* replacing a database touches neither number nor key of any pairing, and no other pairing *)
+Theorem bcast_db_keeps_number_and_key : forall st i cs sg keep j p,
+  wf_ctrl (x_c st) -> nth_error (x_c st) j = Some p ->
+  exists q, nth_error (x_c (fst (fst (xapply st (XDb i cs sg keep))))) j = Some q /\
+            p_id q = p_id p /\ p_sn q = p_sn p /\ p_key q = p_key p /\
+            (p_id p <> i -> q = p) /\ (p_id p = i -> p_chars q = cs /\ p_sig q = sg).
+Proof. exact xdb_j. Qed.
+
+(* the operations of rounds 1-7 are embedded unchanged (all theorems above lift) *)
+Theorem bcast_xapply_embeds : forall st o,
+  x_c (fst (fst (xapply st (XOp o)))) = fst (fst (apply (x_c st) o)) /\
+  snd (fst (xapply st (XOp o))) = snd (fst (apply (x_c st) o)) /\
+  snd (xapply st (XOp o)) = snd (apply (x_c st) o).
+Proof. exact xapply_op. Qed.
+
+(* loading a pairing again while the controller holds its discovery loses nothing: number, key and
+   database are what they were, so the replay of an accepted notification stays ignored *)
+Theorem bcast_reload_with_discovery : forall st i,
+  mem_id i (x_disc st) = true -> x_c (fst (fst (xapply st (XReload i)))) = x_c st.
+Proof. exact reload_with_discovery. Qed.
+
+Theorem bcast_replay_after_reload : forall p a body n pt,
+  fresh_w 98 p a body n pt ->
+  exists o, notify (reload_p true (with_sn p n)) a body = (with_sn p n, o, []).
+Proof. exact (replay_after_reload 98). Qed.
+
+Theorem bcast_plain_makes_discovery : forall st i n,
+  mem_id i (x_disc (fst (fst (xapply st (XOp (OPlain i n)))))) = true.
+Proof. exact plain_makes_discovery. Qed.
+
+(* without a discovery the reload is a restart of that pairing (observation 2 applies) *)
+Theorem bcast_reload_without_discovery_is_restart : forall st i j p,
+  wf_ctrl (x_c st) -> mem_id i (x_disc st) = false -> nth_error (x_c st) j = Some p -> p_id p = i ->
+  nth_error (x_c (fst (fst (xapply st (XReload i))))) j = Some (restart_p p).
+Proof. exact reload_without_discovery. Qed.
+
+Example c18_db_replaced_example :
+  dx_run (mkX [dx_p] [])
+         [XOp (OAdv (dx_seal 11 11)); XOp (OAdv (dx_seal 12 12)); XOp (OAdv (dx_seal 13 13));
+          XDb dx_id [(11, FU8); (13, FU16)] false true;
+          XOp (OAdv (dx_seal 14 11)); XOp (OAdv (dx_seal 15 12)); XOp (OAdv (dx_seal 16 13));
+          XOp (OAdv (dx_seal 14 11))] =
+  [(OAccepted, [(dx_id, 1, 11, VInt 513)], [Some 11]);
+   (OAccepted, [(dx_id, 1, 12, VInt 1)], [Some 12]);
+   (OUndelivered CkNoChar, [], [Some 13]);
+   (OOtherType, [], [Some 13]);
+   (OAccepted, [(dx_id, 1, 11, VInt 1)], [Some 14]);
+   (OUndelivered CkNoChar, [], [Some 15]);
+   (OAccepted, [(dx_id, 1, 13, VInt 513)], [Some 16]);
+   (ONoDecrypt, [], [Some 16])].
+Proof. exact db_replaced_example. Qed.
+
+Example c18_reload_example :
+  dx_run (mkX [dx_p] [])
+         [XOp (OPlain dx_id 10); XOp (OAdv (dx_seal 11 11)); XOp (OAdv (dx_seal 12 11)); XReload dx_id;
+          XOp (OAdv (dx_seal 11 11)); XOp (OAdv (dx_seal 12 11)); XOp (OAdv (dx_seal 13 12))] =
+  [(OOtherType, [], [Some 10]);
+   (OAccepted, [(dx_id, 1, 11, VInt 513)], [Some 11]);
+   (OAccepted, [(dx_id, 1, 11, VInt 513)], [Some 12]);
+   (OOtherType, [], [Some 12]);
+   (ONoDecrypt, [], [Some 12]);
+   (OStale, [], [Some 12]);
+   (OAccepted, [(dx_id, 1, 12, VInt 1)], [Some 13])] /\
+  dx_run (mkX [dx_p] [])
+         [XOp (OAdv (dx_seal 11 11)); XReload dx_id; XOp (OAdv (dx_seal 11 11))] =
+  [(OAccepted, [(dx_id, 1, 11, VInt 513)], [Some 11]);
+   (OOtherType, [], [Some 10]);
+   (OAccepted, [(dx_id, 1, 11, VInt 513)], [Some 11])].
+Proof. exact reload_example. Qed.
+
+Example c18_cfg_reread_example :
+  dx_run (mkX [dx_p] [])
+         (cfg_begin dx_id 10 ++ [XOp (OAdv (dx_seal 11 11))] ++ cfg_end dx_id [(11, FU8)] false 11
+          ++ [XOp (OAdv (dx_seal 11 11)); XOp (OAdv (dx_seal 12 11))]) =
+  [(OOtherType, [], [Some 10]);
+   (OAccepted, [(dx_id, 1, 11, VInt 513)], [Some 11]);
+   (OOtherType, [], [Some 11]);
+   (OOtherType, [], [Some 11]);
+   (OStale, [], [Some 11]);
+   (OAccepted, [(dx_id, 1, 11, VInt 1)], [Some 12])].
+Proof. exact cfg_example. Qed.
+
+(* ---- the symbolic payload terms, justified bit-exactly -------------------------------------
+   The shared model Model/ChaChaPoly.v (RFC 8439 ChaCha20-Poly1305, tied to
+   aiohomekit.crypto.chacha20poly1305 by harness/aeadtie.py, which this check runs too) has the
+   4-byte partial-tag open used for broadcast notifications.  PSeal k n aad pt stands for
+   cp_seal_partial key nonce aad pt: it opens to pt under exactly its own (key, nonce, aad), and a
+   string of >= 4 bytes that opens IS that term (what aopen's PSeal/PJunk cases say); PEmpty and
+   PShort are what the real open does with 0 and 1..3 bytes. *)
+Module CP := AHK.Model.ChaChaPoly.
+
+Theorem bcast_aead_seal_opens : forall k n a p,
+  length n = 12%nat -> CP.cp_open_partial k n a (CP.cp_seal_partial k n a p) = CP.PPlain p.
+Proof. exact AHK.Proofs.ChaChaPoly.cp_open_partial_seal. Qed.
+
+Theorem bcast_aead_open_sound : forall k n a box p,
+  CP.cp_open_partial k n a box = CP.PPlain p -> (4 <= length box)%nat ->
+  length n = 12%nat /\ box = CP.cp_seal_partial k n a p.
+Proof. exact AHK.Proofs.ChaChaPoly.cp_open_partial_sound. Qed.
+
+Theorem bcast_aead_full_implies_partial : forall k n a box p,
+  CP.cp_open k n a box = Some p -> length n = 12%nat ->
+  CP.cp_open_partial k n a (firstn (length box - 12) box) = CP.PPlain p.
+Proof. exact AHK.Proofs.ChaChaPoly.cp_full_implies_partial. Qed.
+
+Theorem bcast_aead_empty_box_opens : forall k n a,
+  length n = 12%nat -> CP.cp_open_partial k n a [] = CP.PPlain [].
+Proof. exact AHK.Proofs.ChaChaPoly.cp_open_partial_empty_box. Qed.
+
+Theorem bcast_aead_short_box : forall k n a box,
+  length n = 12%nat -> (length box < 4)%nat ->
+  CP.cp_open_partial k n a box = if CP.is_prefix box (CP.cp_tag k n a []) then CP.PPlain [] else CP.PReject.
+Proof. exact AHK.Proofs.ChaChaPoly.cp_open_partial_short_box. Qed.
+
 Print Assumptions bcast_accept_iff.
 Print Assumptions bcast_routing.
 Print Assumptions bcast_monotone.
@@ -369,3 +510,17 @@ Print Assumptions bcast_setkey_needs_signature_char.
 Print Assumptions bcast_rollover_event_safe.
 Print Assumptions bcast_failed_poll_changes_nothing.
 Print Assumptions bcast_replay_after_failed_poll.
+Print Assumptions bcast_db_irrelevant_for_freshness.
+Print Assumptions bcast_db_replaced_delivery.
+Print Assumptions bcast_db_replaced_poll.
+Print Assumptions bcast_db_keeps_number_and_key.
+Print Assumptions bcast_xapply_embeds.
+Print Assumptions bcast_reload_with_discovery.
+Print Assumptions bcast_replay_after_reload.
+Print Assumptions bcast_plain_makes_discovery.
+Print Assumptions bcast_reload_without_discovery_is_restart.
+Print Assumptions bcast_aead_seal_opens.
+Print Assumptions bcast_aead_open_sound.
+Print Assumptions bcast_aead_full_implies_partial.
+Print Assumptions bcast_aead_empty_box_opens.
+Print Assumptions bcast_aead_short_box.
